@@ -241,3 +241,14 @@ def run(facts, rep, ctx):
     gd1_budget(facts, rep)
     tb1b(facts, rep, 'TB-1b', PRE + 'compute_alignment')
     tb1(facts, rep, 'TB-1', PRE + 'compute_alignment')
+
+
+_run_before_round2 = run
+
+
+def run(facts, rep, ctx):
+    """rules added after the second round of independent seeding (rules/round2.py)"""
+    _run_before_round2(facts, rep, ctx)
+    from . import round2
+    round2.ao1(facts, rep, 'alignment::pairwise::banded::Aligner::<F>::compute_alignment')
+
